@@ -599,15 +599,17 @@ pub struct TlSt {
 }
 
 pub struct M04TL<C: Suite> {
-    seed: u64,
-    _c: PhantomData<C>,
+    /// the property this instance reports under (C04; C13 runs the same states for its "nothing without the signature" clause)
+    pub prop: &'static str,
+    pub seed: u64,
+    pub _c: PhantomData<C>,
 }
 
 impl<C: Suite> Model for M04TL<C> {
     type State = Option<TlSt>;
     type Action = TlSt;
     fn name(&self) -> String {
-        format!("c04-timelock-crafted-for-identity/{}", C::G)
+        format!("{}-timelock-crafted-for-identity/{}", self.prop.to_lowercase(), C::G)
     }
     fn init(&self) -> Vec<Option<TlSt>> {
         vec![None]
@@ -675,7 +677,7 @@ impl<C: Suite> Model for M04TL<C> {
             let nothing = matches!(r, Ok(None));
             o.outcome(if nothing { "crafted-for-identity:nothing" } else { "crafted-for-identity:something" });
             o.expect(
-                &format!("C04:timelock-crafted-for-{}:{}:{}:{}:shape{}", which, entry, g, st.s.name(), st.shape),
+                &format!("{}:timelock-crafted-for-{}:{}:{}:{}:shape{}", self.prop, which, entry, g, st.s.name(), st.shape),
                 nothing,
                 "nothing",
                 &match r {
@@ -808,7 +810,7 @@ pub fn models(tier: Tier, seed: u64) -> Vec<Box<dyn DynModel>> {
         bounded(M04::<Bls12381G2Impl>::new(tier, seed), 6),
     ]
     .into_iter()
-    .chain([bounded(M04TL::<Bls12381G1Impl> { seed, _c: PhantomData }, 1), bounded(M04TL::<Bls12381G2Impl> { seed, _c: PhantomData }, 1)])
+    .chain([bounded(M04TL::<Bls12381G1Impl> { prop: "C04", seed, _c: PhantomData }, 1), bounded(M04TL::<Bls12381G2Impl> { prop: "C04", seed, _c: PhantomData }, 1)])
     .chain([bounded(M04Long::<Bls12381G1Impl> { tier, sigs: Default::default(), _c: PhantomData }, 1), bounded(M04Long::<Bls12381G2Impl> { tier, sigs: Default::default(), _c: PhantomData }, 1)])
     .chain(crate::props::tsurf::models("C04", tier, seed))
     .collect()
